@@ -211,15 +211,22 @@ func (s *TranslateFile) SetPrimaryStore(id string, ts TranslateStore) {
 // used for replication by TranslateFile.
 func (s *TranslateFile) handlePrimaryStoreEvent(ev primaryStoreEvent) error {
 	s.mu.Lock()
-	defer s.mu.Unlock()
-
 	if ev.id == s.primaryID {
+		s.mu.Unlock()
 		return nil
 	}
 
-	// Stop translate store replication.
+	// Stop translate store replication. The replication goroutine takes the
+	// store's lock itself (replicate reads the size of the log under it and
+	// entries are appended under it), so it must not be waited for with the
+	// lock held. Events are handled by one goroutine only, so nothing else
+	// starts or stops a replication in the meantime.
 	close(s.replicationClosing)
+	s.mu.Unlock()
 	s.repWG.Wait()
+
+	s.mu.Lock()
+	defer s.mu.Unlock()
 
 	// Set the primary node for translate store replication.
 	s.logger.Debugf("set primary translate store to %s", ev.id)
@@ -231,8 +238,9 @@ func (s *TranslateFile) handlePrimaryStoreEvent(ev primaryStoreEvent) error {
 	}
 
 	// Start translate store replication. Stream from primary, if available.
+	// The channel is renewed in either case: the next event closes it again.
+	s.replicationClosing = make(chan struct{})
 	if s.PrimaryTranslateStore != nil {
-		s.replicationClosing = make(chan struct{})
 		s.repWG.Add(1)
 		go func() { defer s.repWG.Done(); s.monitorReplication() }()
 	}
